@@ -912,6 +912,21 @@ func (f *Frame) enterLoopWithFrame(li *loopInfo, st *State, guard Term) *State {
 			}
 		}()
 	}
+	// cells shared with other goroutines may change at any yield point inside the loop
+	{
+		keys := make([]string, 0, len(vc.sharedCells))
+		for k := range vc.sharedCells {
+			keys = append(keys, k)
+		}
+		sort.Strings(keys)
+		for _, k := range keys {
+			p := vc.sharedCells[k]
+			for _, l := range vc.objectLocs(p, derefType(p.Typ)) {
+				li.allowed[l.name] = append(li.allowed[l.name], l)
+				vc.havoc(nst, l)
+			}
+		}
+	}
 	li.phiSave = map[*ssa.Phi]Val{}
 	for _, in := range h.Instrs {
 		phi, ok := in.(*ssa.Phi)
